@@ -265,6 +265,9 @@ def run_proofs(name, module="LikelyProofs", timeout=1500, threads=8):
     (a false statement) must be rejected by the same pipeline."""
     d = fresh_dir(name)
     t0 = time.time()
+    # tlapm reads the community modules the specification extends as source files
+    subprocess.run(["unzip", "-o", "-q", "-j", TLA_CP.split(":")[1], "SequencesExt.tla", "Folds.tla", "Functions.tla", "FiniteSetsExt.tla"],
+                   cwd=d, stdout=subprocess.DEVNULL, stderr=subprocess.DEVNULL)
     def tlapm(mod):
         p = subprocess.run(["timeout", str(timeout), "tlapm", "--threads", str(threads), "--cleanfp", mod + ".tla"], cwd=d,
                            stdout=subprocess.PIPE, stderr=subprocess.STDOUT, text=True)
